@@ -49,6 +49,11 @@ theorem list_sum_nonneg {ws : List Rat} (h : ∀ w ∈ ws, 0 ≤ w) : 0 ≤ ws.s
 theorem prefixSum_nonneg {ws : List Rat} (h : ∀ w ∈ ws, 0 ≤ w) (k : Nat) : 0 ≤ prefixSum ws k :=
   list_sum_nonneg (fun w hw => h w (List.mem_of_mem_take hw))
 
+theorem prefixSum_le_sum {ws : List Rat} (h : ∀ w ∈ ws, 0 ≤ w) (k : Nat) : prefixSum ws k ≤ ws.sum := by
+  have h1 : (ws.take k).sum + (ws.drop k).sum = ws.sum := List.sum_take_add_sum_drop ws k
+  have h2 : 0 ≤ (ws.drop k).sum := list_sum_nonneg (fun w hw => h w (List.mem_of_mem_drop hw))
+  unfold prefixSum; linarith
+
 /-- soundness: what a successful scan guarantees (no sign condition needed for the upper bound) -/
 theorem scanIdx_some {ws : List Rat} {r cum : Rat} {k : Nat} (h : scanIdx ws r cum = some k) :
     k < ws.length ∧ r < cum + prefixSum ws (k + 1) ∧ (∀ j, j < k → cum + prefixSum ws (j + 1) ≤ r) := by
